@@ -90,7 +90,7 @@ def gen_history(rnd, thorough):
             ops.append((1, rnd.choice([0, 1]), sig, ch))
             nreg += 1
         elif x < 0.65:
-            n = rnd.choice([1, 1, 2, 3, 7, 300, 1000 if not thorough else 20000])
+            n = rnd.choice([1, 1, 2, 3, 7, 300, 1000] + ([5000] if thorough else []))
             ops.append((5, rnd.choice(OKSIGS[:3]), n))
         elif x < 0.85:
             ch = rnd.randrange(nchan)
@@ -381,9 +381,9 @@ def histories(ctx):
         for mode in (0, 2) + ((4,) if kind == 2 else ()):
             for blocking in (0, 1):
                 buf = 4096 if kind == 0 else (1 if blocking else 0)
-                n = 5000 if not thorough else 60000
+                n = 5000 if not thorough else 20000
                 hs.append(([(kind, blocking, mode, 0, buf)], [(1, blocking, 10, 0), (5, 10, n), (3, 0, 0), (5, 10, 2), (4, 0), (5, 10, 1), (6,)]))
-    for _ in range(150 if not thorough else 1500):
+    for _ in range(150 if not thorough else 700):
         hs.append(gen_history(rnd, thorough))
     return hs
 
@@ -409,7 +409,7 @@ def run(ctx, only=None):
                             'longer than the capacity + %d random histories from VERIF_SEED (1-3 channels of 7 descriptor kinds, register/register_raw incl. forbidden, invalid '
                             'signals and invalid descriptors, bursts up to %d deliveries, partial and complete drains, stale unregisters, descriptor-number reuse probe); '
                             'each runs on the real crate in a forked child and on the extracted model with the measured capacities; distinct_nontrivial = distinct '
-                            '(channel configuration) and (kind, outcome, method, probe result) combinations seen' % ((150, 1000) if ctx.tier == 'quick' else (1500, 20000)))
+                            '(channel configuration) and (kind, outcome, method, probe result) combinations seen' % ((150, 5000) if ctx.tier == 'quick' else (700, 20000)))
     ctx.coverage['exhaustive'] = False
     ctx.coverage['refuted'] = 'C13_one_nonblocking_byte_refuted: the text "sees at least one byte" fails for a datagram socket whose queue is full of the empty probe datagrams (model witness dgram_corner_witness; reproduced on the implementation by fixed history 2)'
     ctx.distinct = set(json.dumps(d) for d in ctx.distinct)
